@@ -4,7 +4,7 @@
    here with [currentWindow] as regenerated from the Go source (Gen/C36.v).
    This file adds the model of the querier's chunkSeriesIterator (read-back)
    and the case type / boolean checks.  Executable definitions only. *)
-From Coq Require Import ZArith List Bool Lia Sorted.
+From Coq Require Import ZArith String List Bool Lia Sorted.
 Import ListNotations.
 From Verif Require Import Lib.Corr Lib.Downsample_Core Gen.C36.
 Open Scope Z_scope.
@@ -59,11 +59,30 @@ Definition achunk_eqb (a b : achunk) : bool :=
   && option_eqb samples_eqb (k_max a) (k_max b)
   && option_eqb samples_eqb (k_counter a) (k_counter b).
 
+(* which aggregate the querier reads for a PromQL function: aggrsFromFunc, as a table
+   evaluated on the linked code (Gen.C36.aggrs_from_func; storepb.Aggr numbers) *)
+Definition lookup_aggr (f : string) : list Z :=
+  match find (fun p : string * list Z => String.eqb (fst p) f) aggrs_from_func with
+  | Some p => snd p
+  | None => []
+  end.
+
+Definition aggr_field (a : Z) (c : achunk) : option (list sample) :=
+  if a =? 1 then k_count c else if a =? 2 then k_sum c else if a =? 3 then k_min c
+  else if a =? 4 then k_max c else if a =? 5 then k_counter c else None.
+
+(* chunkSeries.Iterator for a function that selects exactly one aggregate *)
+Definition readback_func (f : string) (out : list achunk) : list sample :=
+  match lookup_aggr f with
+  | [a] => readback (map (fun c => olist (aggr_field a c)) out)
+  | _ => []
+  end.
+
+Definition read_funcs : list string :=
+  ["count_over_time"; "sum_over_time"; "min_over_time"; "max_over_time"]%string.
+
 Definition readbacks (out : list achunk) : list (list sample) :=
-  [ readback (map (fun c => olist (k_count c)) out);
-    readback (map (fun c => olist (k_sum c)) out);
-    readback (map (fun c => olist (k_min c)) out);
-    readback (map (fun c => olist (k_max c)) out) ].
+  map (fun f => readback_func f out) read_funcs.
 
 Definition corr_ok (c : case) : bool :=
   match c with
